@@ -23,6 +23,8 @@ pub struct IoCtx {
     /// the buffer variable a pending `intf.read(.., &mut buf)` / `read_with_status` fills, and whether the
     /// action also returns a status byte
     pub pending_wb: Option<(String, bool)>,
+    /// builder P: translating a function that is not an I/O action (no `Result`) while `mode` is on
+    pub in_pure: bool,
 }
 
 pub fn is_io_fn(sig: &Signature) -> bool {
